@@ -18,6 +18,8 @@ Decided (label, scope and stack-pointer discipline of the code generator; struct
  R4 K1  `let` emits Def after compiling its expression.
  R5 K1  VM entries start clean: RunState::setup_function empties call_state and scope and sets the
         pc on every path to Ok, and every RunState method that calls run() goes through it first.
+ R6 K5  struct literals are complete: lower_struct_literal checks the definition against the literal
+        (every defined field is initialised), the converse of its per-field existence check.
 Not decided: type mismatches, undefined variables and stack underflow for arbitrary accepted
 programs (needs the soundness of the type checker in lower.rs; value-level)."""
 from rules.core import emit, pat
@@ -292,3 +294,38 @@ def vm_entry_rules(F, rep):
                   "%s reaches run() only after setup_function (possibly via setup_action)" % name,
                   "RunState::%s can call run() without going through setup_function" % name, f.site())
     rep.floor("VM entry points that call run()", n, 4)
+    struct_literal_rule(F, rep)
+
+
+SCANS = ("Iterator::find", "Iterator::any", "Iterator::all", "Iterator::position", "Iterator::find_map")
+
+
+def struct_literal_rule(F, rep):
+    """R6: a struct literal initialises every field of the definition (StructGet on a missing member is
+    one of the machine errors C24 excludes). lower_struct_literal already checks literal -> definition
+    (each named field exists, no duplicates); this is the converse direction."""
+    f = F.fn("aranya_policy_compiler::compile::lower::lower_struct_literal")
+    DEF = ("field:struct_defs", "call:get", "call:cloned")
+
+    def from_def(o):
+        og = f.origins(o, through_calls="*")
+        return "field:struct_defs" in og
+
+    # (a) a count comparison between the literal's fields and the definition
+    counted = False
+    for c in f.cmp_switches():
+        oa, ob = f.origins(c["a"], through_calls="*"), f.origins(c["b"], through_calls="*")
+        if "call:len" in oa and "call:len" in ob and (("field:struct_defs" in oa) != ("field:struct_defs" in ob)):
+            counted = True
+    # (b) a scan over the definition's fields whose predicate scans the literal's fields
+    nested = False
+    for c in f.calls:
+        if c.is_(*SCANS) and from_def(c.args[0]):
+            for cl in f.closures_in_args(c, F):
+                if any(x.is_(*SCANS) or x.name == "contains" or x.name == "contains_key" for x in cl.calls):
+                    oe = f.outcome_edges(c)
+                    nested = True
+    rep.check(counted or nested, "struct-literal|every-field-initialised", "K5 sibling agreement",
+              "lower_struct_literal checks the definition against the literal (count comparison or a scan of the definition's fields for one the literal lacks)",
+              "lower_struct_literal never checks that every field of the struct definition is initialised: `S { a: x }` for `struct S { a int, b int }` compiles and "
+              "`s.b` then stops the VM with an invalid-struct-member error", f.site())
